@@ -86,7 +86,7 @@ pub fn hop(src: PublicKey) -> RouteHintHop {
 }
 
 /// hints: 0 none, 1 self last (single hop), 2 other only, 3 [other, self] (self last), 4 [self, other] (self not last),
-/// 5 two hints: [other] and [self]
+/// 5 two hints: [other] and [self], 6 two hints: [] and [other]
 pub fn make_invoice(preimage: &[u8], amount: Option<u64>, hints: u8, signer: u8) -> String {
     let mut b = InvoiceBuilder::new(Currency::Bitcoin)
         .description("verif".into())
@@ -103,6 +103,7 @@ pub fn make_invoice(preimage: &[u8], amount: Option<u64>, hints: u8, signer: u8)
         3 => { b = b.private_route(RouteHint(vec![hop(other), hop(me)])); }
         4 => { b = b.private_route(RouteHint(vec![hop(me), hop(other)])); }
         5 => { b = b.private_route(RouteHint(vec![hop(other)])).private_route(RouteHint(vec![hop(me)])); }
+        6 => { b = b.private_route(RouteHint(vec![])).private_route(RouteHint(vec![hop(other)])); }   // a hint without hops
         _ => {}
     }
     let sk = key(signer);
@@ -326,7 +327,7 @@ pub fn gen_case(rng: &mut Rng, invoices: &[(Vec<u8>, Vec<u8>, Option<u64>)]) -> 
 pub fn invoice_table() -> Vec<(Vec<u8>, Vec<u8>, Option<u64>)> {
     let mut out = Vec::new();
     for (i, amount) in [Some(1_000_000u64), None, Some(1), Some(2_100_000_000_000_000_000u64 / 1000), Some(123_456_789)].iter().enumerate() {
-        for hints in 0..=5u8 {
+        for hints in 0..=6u8 {
             for signer in [2u8, 3] {
                 if signer == 3 && hints > 1 { continue; }
                 let pre = vec![i as u8 * 16 + hints; 32];
